@@ -27,6 +27,12 @@ spec/redis/RespTrace.tla   validation of recorded runs of the real codec.
     and arrays > 32768 elements, while other goroutines replay the TLC vectors of all classes and 16 clients pipeline
     through a real Redis processor (session / backend client encoders over TCP); what was decoded must be what was sent,
     and recorded concurrent rounds are judged by TLC (wire = Encode(sent)).
+ 5. life cycle of a decoder (spec/redis/RespLife.tla): a connection ends at any point, also mid-message with bytes left in
+    the decoder's window; the next connection's decoder must be in the initial state (MC_RespLife_fresh holds; the
+    variant in which the window of a retired decoder survives must violate "exactly the messages of this stream":
+    MC_RespLife_residue).  Code side: c10-residue runs rounds through a real processor's sessions: connection A sends k
+    complete requests and a prefix cut at every position class and closes, then 1..8 fresh connections send PING / a
+    unique GET (array or inline form) and must read exactly their own replies.
 """
 import json
 import os
@@ -99,6 +105,41 @@ def encoders_model(ctx):
         ctx.mc("redis", "RespEnc", "MC_RespEnc_shared_nosplit.cfg", workers=2, timeout=300, count=False,
                expect_violated=["RoundTripAll"])
         ctx.mc("redis", "RespEnc", "MC_RespEnc_done.cfg", workers=2, timeout=300, count=False, expect_violated=["NeverAllDone"])
+
+
+def lifecycle_model(ctx):
+    """5. RespLife.tla: a new connection's decoder is in the initial state; a surviving window violates the property."""
+    ctx.mc("redis", "RespLife", "MC_RespLife_fresh_thorough.cfg" if ctx.thorough else "MC_RespLife_fresh.cfg", workers=4, timeout=600)
+    ctx.mc("redis", "RespLife", "MC_RespLife_residue.cfg", workers=1, dfs=True, timeout=300, count=False, expect_violated=["OwnMessagesOnly"])
+    if ctx.thorough:
+        # some connection does end with bytes left in the window
+        ctx.mc("redis", "RespLife", "MC_RespLife_leftover.cfg", workers=2, timeout=300, count=False, expect_violated=["NeverLeftover"])
+
+
+def residue_results(ctx, res, resfile):
+    rc, so, se = res
+    recs = kit.read_ndjson(resfile) if os.path.exists(resfile) else []
+    for r in recs:
+        if r.get("kind") == "mismatch":
+            ctx.violation("codec/session-residue/" + r["what"],
+                          "round %s: the previous connection ended %s (left %r after %s complete requests); fresh connection %s sent %s "
+                          "and must read %s but got %s" % (r["round"], r["cut"], r["prefix_left_by_previous_connection"],
+                                                         r["complete_requests_before"], r["fresh_connection"], r["sent"], r["want"], r["got"]), r)
+    sums = [r for r in recs if r.get("kind") == "summary"]
+    infra = [r for r in recs if r.get("kind") == "infra"]
+    if ctx.violations:
+        return
+    if rc != 0 or infra or not sums:
+        raise kit.Inconclusive("c10-residue: rc=%s %s %s" % (rc, "; ".join(r["why"] for r in infra[:3]), se[-600:]))
+    s = sums[0]
+    if s["fresh_connections"] < 100 or len(s["cut_classes"]) < 15:
+        raise kit.Inconclusive("c10-residue too thin: %s" % s)
+    ctx.cov["session_residue"] = {k: s[k] for k in ("rounds", "fresh_connections", "replies_checked", "cut_classes", "gomaxprocs")}
+    for c, n in s["cut_classes"].items():
+        ctx.case(key="residue/" + c, n=n)
+    ctx.case(n=max(0, s["replies_checked"] - s["rounds"]), nontrivial=False)
+    ctx.assumptions.append("decoder life cycle: whether a retired decoder is handed out again is up to the runtime (sync.Pool, per P); "
+                           "the rounds are repeated (150 / 600) with few Ps instead of forcing it")
 
 
 def run_concurrent(ctx, vfile):
@@ -335,9 +376,14 @@ def run(ctx):
 
     # the long-lived decoder cases and the concurrent stratum run while TLC checks RespEnc
     lfile = os.path.join(ctx.work, "longlived.ndjson")
-    side = _Bg(lambda: (ctx.harness(["c10-longlived", "-out", lfile], timeout=600), run_concurrent(ctx, vfile)))
+    resfile = os.path.join(ctx.work, "residue.ndjson")
+    side = _Bg(lambda: (ctx.harness(["c10-longlived", "-out", lfile], timeout=600), run_concurrent(ctx, vfile),
+                        ctx.harness(["c10-residue", "-out", resfile, "-rounds", "600" if ctx.thorough else "150"],
+                                    timeout=600, allow_fail=True)))
     encoders_model(ctx)
-    _, conc = side.join()
+    lifecycle_model(ctx)
+    _, conc, res = side.join()
+    residue_results(ctx, res, resfile)
     # long concatenations on ONE decoder (a connection's decoder is long lived): hundreds of messages of every shape,
     # arrays beyond any pre-allocation, nesting up to the documented limit
     for r in kit.read_ndjson(lfile):
